@@ -232,6 +232,10 @@ def gen_regex(r, depth=0):
 # ---------------------------------------------------------------- typed filters
 
 CMP_OPS = ["==", "!=", "<", "<=", ">", ">="]
+# numbers that are different but close, or equal across int/float; ints beyond 2^53 only as document values
+# (an integer literal is read through a double, which the statement's I-JSON range leaves alone)
+NEAR_NUMBERS = [0.3, 0.1 + 0.2, 0.30000000000000004, 1, 1.0, 1.0000000001, 1.0000000000000002, 0.9999999999, 1e15, 1e15 + 0.125, 1e-7, 1.0000000001e-7, 100, 100.00000001, -0.3, -0.30000000000000004,
+        1e308, 1.0000000001e308, 5e-324, 1e-323, 0.0, 2 ** 53, 2 ** 53 + 1, float(2 ** 53), float(2 ** 53) + 2, 10 ** 30, 1e30, 10 ** 30 + 1, -(2 ** 53) - 1, -float(2 ** 53), 123456789.125, 123456789.12500001]
 LIT_POOL = [None, True, False, 0, 1, -1, 2, 1.0, 0.5, 1.5, "", "a", "b", "1", "v1", -0.0, 1e308, 5e-324, 9007199254740991, -9007199254740991, 1e-7, 123456789.125]
 
 
